@@ -18,6 +18,7 @@ import (
 	"sync/atomic"
 	"testing"
 
+	"github.com/keybase/go-codec/codec"
 	"golang.org/x/net/context"
 )
 
@@ -106,8 +107,13 @@ func vProtocols(spec string) *protocolHandler {
 		methods := map[string]ServeHandlerDescription{}
 		if ps[i+1:] != "" {
 			for _, m := range strings.Split(ps[i+1:], "+") {
+				mk := func() interface{} { return new(interface{}) }
+				if name == "ty" {
+					// protocol "ty": handlers that take TYPED arguments, as real users of the package do
+					mk = vTypedArg(string(vUnhex(m)))
+				}
 				methods[string(vUnhex(m))] = ServeHandlerDescription{
-					MakeArg: func() interface{} { return new(interface{}) },
+					MakeArg: mk,
 					Handler: func(context.Context, interface{}) (interface{}, error) { return nil, nil },
 				}
 			}
@@ -115,6 +121,34 @@ func vProtocols(spec string) *protocolHandler {
 		_ = h.registerProtocol(Protocol{Name: name, Methods: methods})
 	}
 	return h
+}
+
+type vTypedStruct struct {
+	A int
+	B string
+	C []byte
+	D []int
+}
+
+// the argument type a method of protocol "ty" decodes into
+func vTypedArg(method string) func() interface{} {
+	switch method {
+	case "raw":
+		return func() interface{} { return new(codec.Raw) }
+	case "st":
+		return func() interface{} { return new(vTypedStruct) }
+	case "sl":
+		return func() interface{} { return new([]int) }
+	case "str":
+		return func() interface{} { return new(string) }
+	case "i":
+		return func() interface{} { return new(int64) }
+	case "mp":
+		return func() interface{} { return new(map[string]interface{}) }
+	case "bs":
+		return func() interface{} { return new([]byte) }
+	}
+	return func() interface{} { return new(interface{}) }
 }
 
 // pending=seq:ctype:hasres:unwrap,...
